@@ -3,8 +3,8 @@
   observable; negation witnesses for the parts that are claimed only partially.
 -/
 import FcProofs.Props.C18
-namespace Fc
-open Fc.W
+namespace Fc.W.Wit18
+open Fc Fc.W
 
 def wContent : List Nat := asciiOf "<VTKFile type=\"UnstructuredGrid\" version=\"1.0\" byte_order=\"LittleEndian\" header_type=\"UInt64\"><Piece/><AppendedData encoding=\"raw\">\n _ab_c\n</AppendedData>\n</VTKFile>\n"
 
@@ -62,4 +62,4 @@ example :
     checkDeclared 1 2 (compReadE 4 rawE dec ([1, 0, 0, 0, 16, 0, 0, 0, 2, 0, 0, 0, 3, 0, 0, 0] ++ [9, 9])) = none := by
   decide +kernel
 
-end Fc
+end Fc.W.Wit18
